@@ -199,17 +199,17 @@ PROFILES = {
     # weights of op families per property; every profile keeps the full state comparison on
     'C02': dict(new=5, relate=9, relate_dup=1.5, relate_overflow=2.5, relate_unknown=1.2, relate_none=0.5,
                 unrelate=4, unrelate_unlinked=1.5, delete=2, delete_again=1, setattr=1, select=0.5, nav=1,
-                new_ref=1, undo=1),
+                new_ref=1, undo=1, grow=0.25),
     'C09': dict(new=5, relate=8, relate_overflow=0.5, unrelate=2.5, delete=1.5, setattr=3, select=9, nav=9,
-                subtype=1.5, hold=1.5, recheck=2, new_ref=1, nav_bad=0.5, swap_attr=0.3),
+                subtype=1.5, hold=1.5, recheck=2, new_ref=1, nav_bad=0.5, swap_attr=0.3, grow=0.25),
     'C10': dict(new=3, new_kw=3, new_ref=1.5, relate=3, unrelate=1, setattr=10, getattr=6, delattr=1.2, set_ref=1,
                 select_eq=5, find_class=1.5, delete=0.5, del_unset=0.4, define_again=0.5, add_attr=0.3,
-                swap_attr=0.6),
-    'C11': dict(new=5, relate=7, unrelate=4, delete=2, setattr_id=5, setattr=1, check=6, new_ref=1),
+                swap_attr=0.6, grow=0.25),
+    'C11': dict(new=5, relate=7, unrelate=4, delete=2, setattr_id=5, setattr=1, check=6, new_ref=1, grow=0.5),
     'C16': dict(new_n=5, relate_n=10, unrelate_n=3, delete=1.2, sort=8, sort_partial=2, relate_overflow=1.5,
                 new=1, relate=1),
     'C19': dict(new=4, new_args=9, new_kw=4, new_bad=1, idgen=5, relate=2, delete=1, setattr=1, select=1, swap_idgen=0.6,
-                add_attr=0.8, swap_attr=0.5),
+                add_attr=0.8, swap_attr=0.5, grow=0.2),
 }
 
 
@@ -850,6 +850,29 @@ class Gen(object):
             return ops
         return op
 
+    def op_grow(self):
+        '''
+        The schema grows in mid-history: two more classes, an association between them and their identifiers are
+        defined on the metamodel that is already populated (and has been queried and checked).
+        '''
+        rng = self.rng
+        if getattr(self, 'ngrow', 0) >= 2:
+            return None
+        self.ngrow = getattr(self, 'ngrow', 0) + 1
+        idt = rng.choice(['unique_id', 'integer', 'string', 'UNIQUE_ID', 'Integer'])
+        ka, kb = 'G%da' % self.ngrow, rng.choice(['G%db', 'Gx%db']) % self.ngrow
+        rel = max([a['rel'] for a in self.sch.assocs] + [0]) + rng.choice([1, 1, 7])
+        many = rng.random() < 0.5
+        classes = [{'kind': ka, 'attrs': [['Id', idt], ['Val', 'integer']]},
+                   {'kind': kb, 'attrs': [['Id', idt], ['A_Id', idt], ['Tag', 'string']]}]
+        assoc = {'rel': rel, 'src': kb, 'src_keys': ['A_Id'], 'src_many': many, 'src_cond': rng.random() < 0.5,
+                 'src_phrase': '', 'tgt': ka, 'tgt_keys': ['Id'], 'tgt_many': False, 'tgt_cond': rng.random() < 0.5,
+                 'tgt_phrase': ''}
+        uniques = [{'kind': ka, 'name': 'I1', 'attrs': ['Id']}]
+        if rng.random() < 0.7:
+            uniques.append({'kind': kb, 'name': 'I1', 'attrs': ['Id']})
+        return {'op': 'grow', 'classes': classes, 'assoc': assoc, 'uniques': uniques}
+
     def op_swap_idgen(self):
         '''the id generator is a public attribute of the metamodel: replace it in mid-history'''
         self.nswap = getattr(self, 'nswap', 0) + 1
@@ -972,6 +995,13 @@ class Gen(object):
                 op = self.op_add_attr()
             elif k == 'swap_attr':
                 op = self.op_swap_attr()
+            elif k == 'grow':
+                op = self.op_grow()
+                if op:
+                    self.emit(op, actor)
+                    self.good_classes = [c for c in self.sch.classes if not c.get('bad')]
+                    op = None
+                    steps += 0.2
             elif k == 'hold':
                 op = self.op_hold()
             elif k == 'recheck':
@@ -1246,6 +1276,23 @@ def apply_ref(ref, op, gen_time=False, world=None):
     if k == 'swap_idgen':
         _, ref.idgen = make_idgen(_FakeXtuml, op['kind'], 0)
         return ('swap', None)
+    if k == 'grow':
+        import copy as _copy
+        for c in op['classes']:
+            if c['kind'].upper() in sch.by_kind:
+                raise Skip('class exists')
+        if any(a['rel'] == op['assoc']['rel'] for a in sch.assocs):
+            raise Skip('association exists')
+        for c in op['classes']:
+            c = _copy.deepcopy(c)
+            sch.classes.append(c)
+            sch.by_kind[c['kind'].upper()] = c
+            ref.pool[c['kind'].upper()] = []
+        sch.assocs.append(_copy.deepcopy(op['assoc']))
+        ref.pairs.append([])
+        for u in op['uniques']:
+            sch.uniques.append(_copy.deepcopy(u))
+        return ('swap', None)
     if k == 'swap_attr':
         try:
             c = sch.cls(op['kind'])
@@ -1446,7 +1493,7 @@ class StoreEngine(Engine):
             'C10': ['write_then_read_other_spelling', 'F1_set_referential', 'where_eq_spelling', 'delattr', 'shadow_world',
                     'attribute_swapped'],
             'C11': ['check_nonzero_assoc', 'check_nonzero_unique', 'check_zero', 'check_consistent_true',
-                    'check_consistent_false'],
+                    'check_consistent_false', 'schema_grown'],
             'C16': ['sort_chain_ge3', 'sort_ring_ge2', 'sort_multi_chain', 'sort_empty', 'sort_partial'],
             'C19': ['new_positional', 'new_keyword', 'F1_unknown_type', 'idgen_peek', 'defaulted_ids', 'idgen_swapped',
                     'attribute_added'],
@@ -1795,6 +1842,17 @@ class Exec(object):
             else:
                 mc.insert_attribute(op['index'], op['name'], op['type'])
             self.bump(self.probes, 'attribute_added')
+            return None
+        if k == 'grow':
+            for c in op['classes']:
+                m.define_class(c['kind'], [tuple(a) for a in c['attrs']])
+            a = op['assoc']
+            ass = m.define_association(a['rel'], a['src'], list(a['src_keys']), a['src_many'], a['src_cond'], a['src_phrase'],
+                                       a['tgt'], list(a['tgt_keys']), a['tgt_many'], a['tgt_cond'], a['tgt_phrase'])
+            ass.formalize()
+            for u in op['uniques']:
+                m.define_unique_identifier(u['kind'], u['name'], *u['attrs'])
+            self.bump(self.probes, 'schema_grown')
             return None
         if k == 'swap_attr':
             mc = m.find_metaclass(op['kind'])
